@@ -30,10 +30,10 @@ Complement(ov) == CASE ov = <<>> -> <<"p", "q">> [] ov = <<"p">> -> <<"q">> [] o
 
 Configs ==
   { [kind |-> "include", mode |-> m, site |-> s, target |-> t, over |-> <<>>, hostp |-> hp, twice |-> tw]
-      : m \in Modes, s \in Sites, t \in {"tv", "ts", "te", "tp", "tq"}, hp \in BOOLEAN, tw \in BOOLEAN }
+      : m \in Modes, s \in Sites, t \in {"tv", "ts", "te", "tp", "tq", "tu"}, hp \in BOOLEAN, tw \in BOOLEAN }
   \cup
   { [kind |-> "embed", mode |-> m, site |-> s, target |-> t, over |-> ov, hostp |-> hp, twice |-> tw]
-      : m \in Modes, s \in Sites, t \in {"te", "tp", "tq"}, ov \in OverSpecs, hp \in BOOLEAN, tw \in BOOLEAN }
+      : m \in Modes, s \in Sites, t \in {"te", "tp", "tq", "tu"}, ov \in OverSpecs, hp \in BOOLEAN, tw \in BOOLEAN }
 
 WithHash == HashE(<< <<NameE("w"), IntE(3)>>, <<NameE("a"), IntE(9)>> >>)
 X(c, ov) ==
@@ -67,6 +67,10 @@ Targets ==
   (* tq: blocks, then assignments and an import at the top level of the embedded template *)
   @@ ("tq" :> <<Text("T["), BlockS("p", <<Text("tp"), PrintS(NameE("a"))>>), Text("|"), BlockS("q", <<Text("tq")>>), Text("]"),
                 SetS("a", StrE("X")), SetS("n", StrE("N")), ImportS(StrE("tv"), "mm"), Text("<"), PrintS(NameE("a")), PrintS(NameE("n")), Text(">")>>)
+  (* tu: a template without parent that imports blocks (use) and defines one of the imported names itself: the same version of p is rendered
+     whether it is included or embedded, the imported q is what block('q') renders *)
+  @@ ("tu" :> <<UseS(StrE("tul"), <<>>), Text("T["), BlockS("p", <<Text("tp"), PrintS(NameE("a"))>>), Text("|"), PrintS(CallE("block", <<StrE("q")>>)), Text("]")>>)
+  @@ ("tul" :> <<BlockS("p", <<Text("LP")>>), BlockS("q", <<Text("tq")>>)>>)
 Templates(c) == ("h" :> Host(c)) @@ Targets
 
 (* ---- declarative expectation ---- *)
@@ -90,6 +94,9 @@ One(c, ov, iter) ==
     [] c.target = "ts" -> "<XN>"
     [] c.target = "te" -> "B(" \o Blk(c, ov, "p", "ep[" \o VA(c) \o "]") \o "|" \o Blk(c, ov, "q", "bq") \o ")"
     [] c.target = "tq" -> "T[" \o Blk(c, ov, "p", "tp" \o VA(c)) \o "|" \o Blk(c, ov, "q", "tq") \o "]<XN>"
+    (* stick lets the imported block win over the template's own definition of the same name (Twig: the own one); what C10
+       states is that include and embed agree on it and that an embed's overrides replace exactly the named blocks *)
+    [] c.target = "tu" -> "T[" \o Blk(c, ov, "p", "LP") \o "|" \o Blk(c, ov, "q", "tq") \o "]"
     [] OTHER -> "T[" \o Blk(c, ov, "p", "tp" \o VA(c)) \o "|" \o Blk(c, ov, "q", "tq") \o "]"
 Both(c, iter) == IF c.twice THEN One(c, c.over, iter) \o "+" \o One(c, Complement(c.over), iter) ELSE One(c, c.over, iter)
 Expected(c) ==
